@@ -11,7 +11,8 @@ EXPLANATION = (
     "mode; matched right rows are marked in every mode that later emits the unmatched ones. (R3) the match predicate is the conjunction (`all`) over ALL commonly named columns of cell "
     "equality, each side read from its own table, column and row; the common columns are collected for every left column name found among the right names, with no early exit. "
     "(R4) optional kinds: right-only columns become optional exactly in LeftOuter / FullOuter, left-only (non-shared) columns exactly in RightOuter / FullOuter; semi / anti joins keep "
-    "the left columns only. Not decided: the multiset of rows itself (values), row selection by index / mask, duplicate column names."
+    "the left columns only. (R5) row selection: the table access kernels copy, for every column, exactly the addressed rows in order (scalar: row ix-1; index vector: output row k = source "
+    "row ix[k]-1; logical mask: flagged rows packed in order) - kernel normal forms. Not decided: the multiset of rows itself (values), duplicate column names."
 )
 TECHNIQUE = ("guard-context analysis of the join routine's syntax tree: emission table per JoinMode (push sites of the output row list with their guards and arguments), predicate shape of "
              "rows_match, column-discovery loop, optional-kind mode sets; routing tables token -> struct -> mode")
@@ -218,3 +219,51 @@ def run(F, rep, tier):
     ok = semi is not None and semi[0] == {"LeftSemi", "LeftAnti"} and semi[1]
     rep.check(ok, "C18-R4", "semi-anti:left-columns-only", "the semi/anti joins do not reduce the output to the left table's columns (%s)" % (semi,), "build_joined_table (%s)" % crate)
     rep.analysed = {"modes": {k: sorted(v) for k, v in got.items()}, "structs": structs, "optional": {k: sorted(v[0]) if v[0] else None for k, v in opt.items()}}
+    run_r5(F, rep)
+
+
+def run_r5(F, rep):
+    """row selection kernels of tables: normal forms"""
+    from lib import fxn as X
+    from lib.kernel import Kernel, Unrecognised, show
+    rep.rule("C18-R5", "row selection: the table access kernels copy, for every column, exactly the addressed rows in order - scalar: row ix-1 of each column; index vector: output row k "
+                       "is source row ix[k]-1; logical mask: the rows whose flag is set, packed in order (kernel normal forms)")
+    S = X.load_fxn_structs(F, ["mech_interpreter.lib"])
+    want = {"TableAccessScalarF", "TableAccessRangeIndex", "TableAccessRangeBool"}
+    n = 0
+    for (crate, name), fs in sorted(S.items()):
+        if name not in want or fs.solve is None:
+            continue
+        try:
+            k = Kernel(fs.solve, fs.fields)
+        except Unrecognised as e:
+            rep.bad("C18-R5", "undecided:%s" % name, "%s::solve is not recognised by the kernel evaluator (%s)" % (name, e), "%s (%s)" % (name, crate))
+            continue
+        n += 1
+        norm = lambda t: re.sub(r"\(\((\w+) \+ 1\) - 1\)", r"\1", t).replace("..data()", ".data")
+        ws = [(norm(show(e.target)), norm(show(e.value)), [norm(str(l)) for l in e.loops], [norm(show(c)) for c in e.conds]) for e in k.effects if e.kind == "write" and "rows()" not in show(e.target)]
+        cs = [(norm(show(e.target)), norm(show(e.value)), [norm(show(c)) for c in e.conds]) for e in k.effects if e.kind == "counter"]
+        bad = None
+        if len(ws) != 1:
+            bad = "%d element writes instead of one per (column, row)" % len(ws)
+        else:
+            tgt, val, loops, conds = ws[0]
+            mcol = re.search(r"<column,source\.data,(\w+)>\[(.+)\]$", val)
+            if not mcol:
+                bad = "the value is not an element of the SAME column of the source table: %s" % val
+            else:
+                cv, row = mcol.group(1), mcol.group(2)
+                if name == "TableAccessScalarF":
+                    ok = tgt == "out.data[<colkey,%s>]" % cv and row == "(ix - 1)" and not conds
+                elif name == "TableAccessRangeIndex":
+                    mt = re.match(r"<column,out\.data,%s>\[(\w+)\]$" % cv, tgt)
+                    ok = bool(mt) and row == "(ix[%s] - 1)" % mt.group(1) and not conds
+                else:
+                    mt = re.match(r"<column,out\.data,%s>\[#(\w+)\]$" % cv, tgt)
+                    ok = bool(mt) and len(conds) == 1 and re.match(r"^ix\[(\w+)\]$", conds[0]) is not None and row == re.match(r"^ix\[(\w+)\]$", conds[0]).group(1) and \
+                        any(c[0] == "#" + mt.group(1) and c[1] == "(#%s + 1)" % mt.group(1) and c[2] == conds for c in cs)
+                if not ok:
+                    bad = "write %s := %s under %s (counters %s)" % (tgt, val, conds, cs)
+        rep.check(bad is None, "C18-R5", name if bad is None else "%s:rows-misaddressed" % name,
+                  "%s::solve does not select exactly the addressed rows in order: %s" % (name, bad), "%s (%s)" % (name, crate), sample={"kernel": name, "writes": ws, "counters": cs})
+    rep.floor("C18-R5", "table row-selection kernels", n, 3)
